@@ -352,6 +352,12 @@ func (m *AuthMonitor) OnTx(h *History, o *TxObs) {
 		w := txWitness(h, o)
 		m.Rep.Violation("c09/"+kind, what, w)
 	}
+	if intent == "forged-without-key" {
+		// The harness built this envelope without any private key: whatever a verifier
+		// thinks of it, nobody signed these bytes.
+		viol("unsigned-forgery-took-effect", "an envelope constructed without any private key (small-order public key, message-independent signature) took effect")
+		return
+	}
 	if !d.EnvelopeOK || !d.TxOK {
 		viol("undecodable-bytes-took-effect", "bytes that do not decode as a signed transaction took effect")
 		return
